@@ -607,29 +607,23 @@ pub fn triage<W: World>(
                     continue;
                 }
             };
-            let t_min = Instant::now();
-            let m = match minimise::<W>(&case, f, b.mode, tier, open, budget) {
-                Ok(m) => m,
-                Err(e) => {
-                    harness_errors.push(format!("minimiser: {e}"));
-                    continue;
-                }
-            };
-            let _ = t_min;
+            // the failing case as generated; minimisation happens in a child process (a shrunk candidate may
+            // abort the process: that must not take the driver down)
+            let _ = budget;
             let r = Replay {
                 format: 1,
                 world: W::NAME.to_string(),
                 mode: b.mode.to_string(),
                 property: prop.to_string(),
-                clause: m.failure.clause.clone(),
-                detail: m.failure.detail.clone(),
+                clause: f.clause.clone(),
+                detail: f.detail.clone(),
                 seed,
                 run: *i,
                 tier: tier.name().to_string(),
-                minimised: true,
-                min_candidates: m.candidates,
-                min_budget_exhausted: m.budget_exhausted,
-                case: serde_json::to_value(&m.case).unwrap(),
+                minimised: false,
+                min_candidates: 0,
+                min_budget_exhausted: false,
+                case: serde_json::to_value(&case).unwrap(),
                 components: comps.clone(),
             };
             let path = format!(
@@ -643,6 +637,31 @@ pub fn triage<W: World>(
                 harness_errors.push(format!("cannot write {path}"));
                 continue;
             }
+            let exe = std::env::current_exe().unwrap();
+            let st = Command::new(exe).arg("minimise").arg(&path).stdin(Stdio::null()).stdout(Stdio::null()).stderr(Stdio::null()).status();
+            match st {
+                Ok(s) if s.code() == Some(0) => {}
+                Ok(s) if s.code() == Some(2) => {
+                    harness_errors.push(format!("minimiser reported a harness error on {path}"));
+                    continue;
+                }
+                _ => {
+                    // the minimiser died (a candidate aborted the process): keep the unminimised case
+                    let _ = std::fs::write(&path, serde_json::to_string_pretty(&r).unwrap());
+                }
+            }
+            let m_clause;
+            let m_detail;
+            match std::fs::read_to_string(&path).ok().and_then(|t| serde_json::from_str::<Replay>(&t).ok()) {
+                Some(rr) => {
+                    m_clause = rr.clause;
+                    m_detail = rr.detail;
+                }
+                None => {
+                    harness_errors.push(format!("cannot re-read {path}"));
+                    continue;
+                }
+            }
             // confirm in a fresh process
             let code = replay_file_quiet(&path);
             if code != 1 {
@@ -654,8 +673,8 @@ pub fn triage<W: World>(
             }
             out.push(Violation {
                 prop: prop.to_string(),
-                clause: m.failure.clause.clone(),
-                detail: m.failure.detail.clone(),
+                clause: m_clause,
+                detail: m_detail,
                 replay_path: path,
             });
         }
@@ -828,4 +847,45 @@ pub fn write_evidence(rep: &PropReport) -> Result<(), String> {
     std::fs::write(&tmp, serde_json::to_string_pretty(&ev).unwrap()).map_err(|e| e.to_string())?;
     std::fs::rename(&tmp, &path).map_err(|e| e.to_string())?;
     Ok(())
+}
+
+/// `riosim minimise <replay file>`: minimise the case in place.  Exit 0 = file rewritten, 2 = harness error.
+pub fn minimise_file<W: World>(path: &str, r: &Replay) -> i32 {
+    let known = load_known();
+    let open = open_set(&known);
+    let budget: u64 = std::env::var("VERIF_MIN_BUDGET").ok().and_then(|s| s.parse().ok()).unwrap_or(2000);
+    let case: W::Case = match serde_json::from_value(r.case.clone()) {
+        Ok(c) => c,
+        Err(_) => return 2,
+    };
+    let f = Failure {
+        prop: r.property.clone(),
+        clause: r.clause.clone(),
+        detail: r.detail.clone(),
+        hint: Value::Null,
+    };
+    // re-run first to recover the hint of the failure
+    let tier = Tier::parse(&r.tier);
+    let f = match fails_same::<W>(&case, &r.property, &r.mode, tier, &f.class(), &open) {
+        Ok(Some(ff)) => ff,
+        Ok(None) => return 3, // does not fail in this process: leave the file as it is, the confirmation step decides
+        Err(_) => return 2,
+    };
+    match minimise::<W>(&case, &f, &r.mode, tier, &open, budget) {
+        Err(_) => 2,
+        Ok(m) => {
+            let mut out = r.clone();
+            out.clause = m.failure.clause.clone();
+            out.detail = m.failure.detail.clone();
+            out.minimised = true;
+            out.min_candidates = m.candidates;
+            out.min_budget_exhausted = m.budget_exhausted;
+            out.case = serde_json::to_value(&m.case).unwrap();
+            let tmp = format!("{path}.tmp");
+            if std::fs::write(&tmp, serde_json::to_string_pretty(&out).unwrap()).is_err() || std::fs::rename(&tmp, path).is_err() {
+                return 2;
+            }
+            0
+        }
+    }
 }
